@@ -3,6 +3,7 @@
 package harness
 
 import (
+	"os"
 	"bytes"
 	"fmt"
 	"math/big"
@@ -102,6 +103,24 @@ func mkAddr(prefix byte, i int) []byte {
 	return b
 }
 
+// mkAddrN: an address of n bytes (the SDK allows 20-byte key-derived and 32-byte module/contract/ICA addresses).
+// The LAST validator and the LAST user get 32-byte addresses: every store key of the module is length-prefixed, so a
+// longer address sorts after all shorter ones and the id order of the model (= creation order) is still the store's
+// iteration order; key parsers that mix up two length fields are only exercised when lengths differ.
+func mkAddrN(prefix byte, i int, n int) []byte {
+	b := make([]byte, n)
+	b[0] = prefix
+	b[n-1] = byte(i)
+	return b
+}
+
+func addrLen(i, count int) int {
+	if count > 1 && i == count-1 && os.Getenv("VERIF_EQUAL_ADDRS") == "" {
+		return 32
+	}
+	return 20
+}
+
 func (e *Env) mint(addr sdk.AccAddress, coins sdk.Coins) {
 	if coins.IsZero() {
 		return
@@ -150,7 +169,7 @@ func NewEnv(t *testing.T, cfg Config) *Env {
 
 	pks := allianceapp.CreateTestPubKeys(cfg.NVals)
 	for i := 0; i < cfg.NVals; i++ {
-		valAddr := sdk.ValAddress(mkAddr(0xA0, i))
+		valAddr := sdk.ValAddress(mkAddrN(0xA0, i, addrLen(i, cfg.NVals)))
 		v := teststaking.NewValidator(t, valAddr, pks[i])
 		v.Commission = stakingtypes.NewCommission(math.LegacyZeroDec(), math.LegacyOneDec(), math.LegacyZeroDec())
 		allianceapp.RegisterNewValidator(t, app, ctx, v)
@@ -171,7 +190,7 @@ func NewEnv(t *testing.T, cfg Config) *Env {
 		}
 	}
 	for i := 0; i < cfg.NUsers; i++ {
-		u := sdk.AccAddress(mkAddr(0xD0, i))
+		u := sdk.AccAddress(mkAddrN(0xD0, i, addrLen(i, cfg.NUsers)))
 		e.Users = append(e.Users, u)
 		e.acctAddr[AccUserBase+i] = u
 	}
